@@ -2314,6 +2314,9 @@ func (s *swamp) Close() {
 
 	// send the closed event to the hydra
 	s.sendClosedEvent()
+	if verifhook.Enabled {
+		verifhook.Point("close.done", s.name.Get())
+	}
 
 	return
 
@@ -2376,7 +2379,13 @@ func (s *swamp) Destroy() {
 	// Draining vigils first keeps s.mu free, so in-flight Saves complete and
 	// release their vigils, and (because closing=1 already gates SummonSwamp)
 	// no new vigils can be started in the meantime.
+	if verifhook.Enabled {
+		verifhook.Point("destroy.draining", swampName)
+	}
 	s.Vigil.WaitForActiveVigilsClosed()
+	if verifhook.Enabled {
+		verifhook.Point("destroy.drained", swampName)
+	}
 
 	slog.Debug("Destroy: vigils closed", "swamp", swampName)
 
@@ -2584,6 +2593,9 @@ func (s *swamp) DeleteTreasure(key string, shadowDelete bool) error {
 
 	// destroy the swamp if there is no treasure in it
 	if s.beaconKey.Count() == 0 {
+		if verifhook.Enabled {
+			verifhook.Point("autodestroy.check", key)
+		}
 		// feloldjuk a vigiliát, mert nincs több treasure a swampban és a Destroy megkövetelei a Vigil feloldását
 		s.CeaseVigil()
 		s.Destroy()
@@ -3418,6 +3430,9 @@ func (s *swamp) startCloseListener() {
 			// goroutines are finished their work
 			currentTime := time.Now()
 			lastInteractionTime := time.Unix(0, atomic.LoadInt64(&s.lastInteractionTime))
+			if verifhook.Enabled {
+				verifhook.Point("close.tick.read", s.name.Get(), currentTime.After(lastInteractionTime.Add(s.closeAfterIdle+closeGapDuration)))
+			}
 
 			func() {
 
